@@ -39,16 +39,23 @@ def marker(n):
 @st.composite
 def programs(draw):
     n = draw(st.integers(2, 12))
-    mode = draw(st.sampled_from(["normal", "normal", "normal", "normal", "normal", "zero", "zero", "high"]))
-    if mode == "high":
+    mode = draw(st.sampled_from(["normal", "normal", "normal", "normal", "normal", "zero", "zero", "high", "prefix", "many"]))
+    if mode == "prefix":
+        # scale: labels that are prefixes of one another (1 / 10 / 100 / 1000 / 10000 ...), textual matching would confuse them
+        nums = sorted(draw(st.sets(st.sampled_from([d_ * 10 ** k_ for d_ in (1, 2, 3) for k_ in range(5)] + [12, 123, 1234, 12345]), min_size=min(n, 8), max_size=max(n, 8))))
+        n = len(nums)
+    elif mode == "many":
+        n = draw(st.integers(25, 45))
+        nums = [100 + i * 700 for i in range(n)]  # up to 30900: five-digit labels
+    elif mode == "high":
         pool = sorted(draw(st.sets(st.sampled_from([32000, 32690, 32698, 32699, 32700, 32701, 32767, 40000, 10, 20, 100]), min_size=n, max_size=n))) if n <= 11 else None
         nums = pool or list(range(10, 10 * n + 1, 10))
     else:
         start = 0 if mode == "zero" else draw(st.sampled_from([1, 5, 10, 100]))
         step = draw(st.sampled_from([1, 3, 10, 10, 100]))
         nums = [start + i * step for i in range(n)]
-    missing = [x for x in (nums[-1] + 7, 9999, 0, 32700, 5) if x not in nums]
-    use_missing = draw(st.integers(0, 9)) == 0
+    missing = [x for x in (nums[-1] + 7, 9999, 0, 32700, 5, 32701, 40000, 63999) if x not in nums]
+    use_missing = draw(st.integers(0, 5)) == 0
     feats = set()
 
     def target():
@@ -71,9 +78,11 @@ def programs(draw):
         if r == 1:
             return ["gosub", target()]
         if r == 2:
-            k = draw(st.integers(1, 4))
+            k = draw(st.integers(1, 4)) if mode not in ("prefix", "many") else draw(st.integers(1, 12))
             if k >= 2:
                 feats.add("on_list_ge_2")
+            if k >= 9:
+                feats.add("scale_on_list_ge_9")
             return ["on", ["var", "A"], draw(st.sampled_from(["GOTO", "GOSUB"])), [target() for _ in range(k)]]
         return ["goto", target()]
 
@@ -133,6 +142,8 @@ def programs(draw):
         h = handlers.pop()
         prog[draw(st.integers(0, len(prog) - 1))][1].insert(1, [h, target()])
     fix(prog)
+    if mode in ("prefix", "many"):
+        feats.add("scale_" + mode + "_line_numbers")
     return {"prog": prog, "_meta": {"features": sorted(feats)}}
 
 
